@@ -1,0 +1,19 @@
+//go:build verif
+
+package antispoof
+
+import "github.com/cilium/ebpf"
+
+// SetMapsForVerif injects the eBPF maps the manager writes to, exactly as Start() would after
+// loading the collection (no program is loaded or attached). As Start() does, the caller is
+// expected to publish the default configuration with SetMode(m.ModeForVerif()).
+// Verification harness only.
+func (m *Manager) SetMapsForVerif(bindings, config, stats, ranges *ebpf.Map) {
+	m.bindings = bindings
+	m.config = config
+	m.stats = stats
+	m.ranges = ranges
+}
+
+// ModeForVerif returns the manager's current mode (the one Start() publishes as default_mode).
+func (m *Manager) ModeForVerif() Mode { return m.mode }
